@@ -1,4 +1,6 @@
 import Qhttp.Props.C01
+import Qhttp.Lemmas.C02Run
+import Qhttp.Lemmas.BytesLemmas
 /-
   C02 — the request body reaches the reader intact under every segmentation.
 -/
@@ -63,5 +65,314 @@ def holds (env : Env) (sc : Scenario) (obs : List Obs) : Bool :=
         (match sc.events.getLast? with | some (.api .readAll) => true | _ => false)
      then Obs.reads obs == entitled r && Obs.countP Obs.isHp obs == 1 && Obs.countP Obs.isRcf obs == 1
      else true)
+
+/-! ## Theorems
+
+  The proofs live in `Qhttp/Lemmas/C02*.lean`: `Mid` is what holds whenever application code can
+  run, `RInv` what holds between two external events, both stated against the bytes delivered so
+  far; `run_inv` is the induction over the event list. -/
+
+theorem walk_eq (evs : List Event) (r : Req) :
+    ∀ l f h a, walk evs r l f h a = walkL evs r.headLen r.n l f h a := by
+  intro l
+  induction l with
+  | nil => intro f h a; rfl
+  | cons o l ih =>
+    intro f h a
+    cases o <;> simp [walk, walkL, ih, evBytes, evLen] <;> rfl
+
+/-- `C01.expect` accepting the head with a declared length `N ≥ 0` is `Acc` -/
+theorem acc_of_expect {env : Env} {head : Bytes} {f : Snap} {N : Nat}
+    (hf : C01.expect env head = some f) (hN : f.total = (N : Int)) : Acc env head N := by
+  unfold C01.expect at hf
+  split at hf
+  · exact absurd hf (by simp)
+  · rename_i rh hp
+    split at hf
+    · exact absurd hf (by simp)
+    · rename_i p q hu
+      simp only [Option.some.injEq] at hf
+      subst hf
+      simp only at hN
+      refine ⟨rh, p, q, hp, hu, ?_, ?_⟩
+      · by_cases hc : HeaderMap.contains Sock.CONTENT_LENGTH rh.headers = true
+        · exact hc
+        · simp [hc] at hN
+      · by_cases hc : HeaderMap.contains Sock.CONTENT_LENGTH rh.headers = true
+        · simp only [hc, if_true] at hN
+          exact hN
+        · simp [hc] at hN
+
+/-- what `req` returning a request means -/
+theorem req_some {env : Env} {stream : Bytes} {r : Req} (h : req env stream = some r) :
+    ∃ head, breakOn CRLF2 stream = some (head, r.rest) ∧ Acc env head r.n ∧ r.headLen = head.length + 4 := by
+  unfold req at h
+  split at h
+  · exact absurd h (by simp)
+  · rename_i head rest hb
+    split at h
+    · exact absurd h (by simp)
+    · rename_i f hf
+      split at h
+      · exact absurd h (by simp)
+      · rename_i hneg
+        simp only [Option.some.injEq] at h
+        subst h
+        exact ⟨head, hb, acc_of_expect hf (by simp only; omega), rfl⟩
+
+theorem okEvent_of_shape {evs : List Event} (h : readerEvents evs = true) : ∀ e ∈ evs, okEvent e = true := by
+  unfold readerEvents at h
+  split at h
+  · rename_i rest
+    intro e he
+    rcases List.mem_cons.mp he with rfl | he
+    · rfl
+    · have := List.all_eq_true.mp h e he
+      simp [okEvent, this]
+  · exact absurd h (by simp)
+
+/-- `holds` from its clauses -/
+theorem holds_of_facts (env : Env) (sc : Scenario) (obs : List Obs) (r : Req)
+    (hreq : req env (Scenario.fed sc.events) = some r)
+    (h1 : Obs.reads obs <+: entitled r)
+    (h2 : Obs.countP Obs.isHp obs ≤ 1) (h3 : Obs.countP Obs.isRcf obs ≤ 1)
+    (h4 : walk sc.events r obs 0 false none = true)
+    (h5 : r.rest.length ≥ r.n → sc.events.getLast? = some (.api .readAll) →
+            Obs.reads obs = entitled r ∧ Obs.countP Obs.isHp obs = 1 ∧ Obs.countP Obs.isRcf obs = 1) :
+    holds env sc obs = true := by
+  unfold holds
+  rw [hreq]
+  have e1 : (Obs.reads obs).isPrefixOf (entitled r) = true := List.isPrefixOf_iff_prefix.mpr h1
+  simp only [e1, h2, h3, h4, decide_true, Bool.and_self, Bool.true_and]
+  split
+  · rename_i hl
+    by_cases hN : r.rest.length ≥ r.n
+    · obtain ⟨f1, f2, f3⟩ := h5 hN hl
+      simp [f1, f2, f3]
+    · simp [hN]
+  · simp
+
+/-- **C02, main theorem.** For every environment, every reader application (arbitrary reactions
+    made of `read n`, `readAll`, `avail; readAll`, chosen as a function of the socket state) and
+    every scenario `new :: (feed seg | turn | idle-context read)*` — i.e. every segmentation of
+    every stream and every reader policy — the executable predicate holds on the model's run. -/
+theorem holds_run (env : Env) (app : App) (happ : ReaderApp app) (evs : List Event)
+    (hshape : readerEvents evs = true) :
+    holds env ⟨app, evs⟩ (Scenario.run env ⟨app, evs⟩).log = true := by
+  cases hreq : req env (Scenario.fed evs) with
+  | none => unfold holds; simp only [hreq]
+  | some r =>
+    obtain ⟨head, hfin, acc, hhl⟩ := req_some hreq
+    have hok := okEvent_of_shape hshape
+    have hR : RInv evs head r.n (Scenario.fed evs) (Sock.run env app evs) :=
+      run_inv env app happ acc r.rest hfin evs [] (by simp) hok
+    have hpre := hR.reads_prefix hfin (List.prefix_refl _)
+    obtain ⟨chp, crcf, cwalk, ctc⟩ := hR.counts
+    refine holds_of_facts env ⟨app, evs⟩ _ r hreq hpre ?_ ?_ ?_ ?_
+    · show Obs.countP Obs.isHp (Sock.run env app evs).log ≤ 1
+      rw [chp]; split <;> omega
+    · show Obs.countP Obs.isRcf (Sock.run env app evs).log ≤ 1
+      rw [crcf]; split <;> omega
+    · show walk evs r (Sock.run env app evs).log 0 false none = true
+      rw [walk_eq, hhl]; exact cwalk
+    · intro hN hl
+      obtain ⟨pre, hpe⟩ := List.getLast?_eq_some_iff.mp hl
+      have hpe : evs = pre ++ [.api .readAll] := hpe
+      have hRp : RInv evs head r.n (Scenario.fed pre) (Sock.run env app pre) :=
+        run_inv env app happ acc r.rest hfin pre [.api .readAll] hpe
+          (fun e he => hok e (by rw [hpe]; simp [he]))
+      have hfp : Scenario.fed pre = Scenario.fed evs := by
+        rw [hpe, fed_append, fed_single]; simp [evBytesOf]
+      rw [hfp] at hRp
+      have hrun : Sock.run env app evs =
+          (Sock.stepK env app (Sock.run env app pre, (pre.foldl (Sock.stepK env app) ({}, 0)).2)
+            (.api .readAll)).1 := by
+        rw [hpe]; simp [Sock.run, List.foldl_append]
+      obtain ⟨f1, f2, f3⟩ := hRp.final_readAll env app hfin hN (pre.foldl (Sock.stepK env app) ({}, 0)).2
+      rw [← hrun] at f1 f2 f3
+      exact ⟨f1, f2, f3⟩
+
+/-! ## The property in plain terms
+
+  `Stream env head N rest evs`: the scenario has the reader shape and its byte stream is an
+  accepted head declaring `N ≥ 0` body bytes, the first blank line, and `rest` (the body and
+  whatever follows it).  Every statement is about *every prefix* `pre` of the event list, i.e.
+  about every point of every run under every segmentation. -/
+
+structure Stream (env : Env) (head : Bytes) (N : Nat) (rest : Bytes) (evs : List Event) : Prop where
+  shape : readerEvents evs = true
+  fed : Scenario.fed evs = head ++ CRLF2 ++ rest
+  /-- the blank line after `head` is the first one in the stream -/
+  first : ¬ CRLF2 <:+: head ++ CRLF2.dropLast
+  accepted : ∃ f, C01.expect env head = some f ∧ f.total = (N : Int)
+
+section plain
+variable {env : Env} {app : App} {head rest : Bytes} {N : Nat} {evs : List Event}
+
+theorem Stream.brk (h : Stream env head N rest evs) :
+    breakOn CRLF2 (Scenario.fed evs) = some (head, rest) := by
+  rw [h.fed]; exact breakOn_of_not_infix rest (by decide) h.first
+
+theorem Stream.inv (h : Stream env head N rest evs) (happ : ReaderApp app) (pre post : List Event)
+    (hevs : evs = pre ++ post) :
+    RInv evs head N (Scenario.fed pre) (Sock.run env app pre) ∧ Scenario.fed pre <+: Scenario.fed evs := by
+  obtain ⟨f, hf, hN⟩ := h.accepted
+  refine ⟨run_inv env app happ (acc_of_expect hf hN) rest h.brk pre post hevs
+    (fun e he => okEvent_of_shape h.shape e (by rw [hevs]; simp [he])), ?_⟩
+  rw [hevs, fed_append]; exact List.prefix_append _ _
+
+/-- while the state is `headers`, fewer than `|head| + 4` bytes have arrived -/
+theorem arrived_lt_of_headers {fed : Bytes} {s : Sock} (h : Stream env head N rest evs)
+    (hR : RInv evs head N fed s) (hpre : fed <+: Scenario.fed evs) (hrs : s.rs = .headers) :
+    fed.length < head.length + 4 := by
+  obtain ⟨a, hb, B, hm, _, hrel⟩ := hR
+  have hnone := (hrel.1 hrs).2
+  apply Nat.lt_of_not_le
+  intro hle
+  have h1 : head ++ CRLF2 <+: Scenario.fed evs := by rw [h.fed]; exact List.prefix_append _ _
+  have h2 : head ++ CRLF2 <+: fed :=
+    List.prefix_of_prefix_length_le h1 hpre (by simp [CRLF2_length]; omega)
+  obtain ⟨t, ht⟩ := h2
+  exact breakOn_none hnone ⟨head, t, ht⟩
+
+/-- **nothing lost, duplicated, reordered, nothing beyond `N`; arrived bytes stay readable.**
+    At every point between two events, what the reader has obtained so far followed by what
+    `readAll()` would return now is exactly the first `min N arrived` bytes after the blank line. -/
+theorem readable_exact (h : Stream env head N rest evs) (happ : ReaderApp app)
+    (pre post : List Event) (hevs : evs = pre ++ post) :
+    Obs.reads (Sock.run env app pre).log ++ (Sock.readAll (Sock.run env app pre)).2 =
+      ((Scenario.fed pre).drop (head.length + 4)).take N := by
+  obtain ⟨hR, hpre⟩ := h.inv happ pre post hevs
+  by_cases hrs : (Sock.run env app pre).rs = .headers
+  · have hlt := arrived_lt_of_headers h hR hpre hrs
+    obtain ⟨a, hb, B, hm, _, _⟩ := hR
+    obtain ⟨_, _, _, e4, e5, _⟩ := hm.hdr hrs
+    rw [readAll_headers _ hrs e4, e5, List.drop_of_length_le (by omega)]; simp
+  · obtain ⟨rest', t, e1, _, e3, _⟩ := hR.rest_eq h.brk hpre hrs
+    obtain ⟨a, hb, B, hm, _, _⟩ := hR
+    rw [readAll_data _ hm.ioOpen hrs, e1]
+    have : (head ++ CRLF2 ++ rest').drop (head.length + 4) = rest' := by
+      apply List.drop_left'; simp [CRLF2_length]
+    rw [this, ← e3]; simp
+
+/-- **reads form a prefix of the entitled body**, at every point of the run -/
+theorem reads_prefix (h : Stream env head N rest evs) (happ : ReaderApp app)
+    (pre post : List Event) (hevs : evs = pre ++ post) :
+    Obs.reads (Sock.run env app pre).log <+: rest.take N := by
+  obtain ⟨hR, hpre⟩ := h.inv happ pre post hevs
+  exact hR.reads_prefix h.brk hpre
+
+/-- **`bytesAvailable()` is exact** (state form): at every point between two events it equals the
+    length of what an immediate `readAll()` returns -/
+theorem avail_exact (h : Stream env head N rest evs) (happ : ReaderApp app)
+    (pre post : List Event) (hevs : evs = pre ++ post) :
+    Sock.bytesAvailable (Sock.run env app pre) = (Sock.readAll (Sock.run env app pre)).2.length :=
+  (h.inv happ pre post hevs).1.avail_exact
+
+/-- **`bytesAvailable()` is exact** (history form, covers calls made inside reactions): an answer
+    `n` directly followed by a read is followed by a read of exactly `n` bytes -/
+theorem avail_exact_log (h : Stream env head N rest evs) (happ : ReaderApp app)
+    (l1 l2 : List Obs) (n : Nat) (b : Bytes)
+    (hlog : (Sock.run env app evs).log = l1 ++ Obs.av n :: Obs.rd b :: l2) : b.length = n := by
+  obtain ⟨hR, _⟩ := h.inv happ evs [] (by simp)
+  have hw := hR.counts.2.2.1
+  rw [hlog] at hw
+  exact walkL_av_rd _ _ _ _ _ _ _ hw
+
+/-- **completeness**: the whole body was delivered (nobody closed anything: the shape has no
+    close) and the reader ends with `readAll()`: it has read exactly the first `N` bytes after the
+    blank line -/
+theorem complete (h : Stream env head N rest evs) (happ : ReaderApp app) (hN : N ≤ rest.length)
+    (pre : List Event) (hlast : evs = pre ++ [.api .readAll]) :
+    Obs.reads (Sock.run env app evs).log = rest.take N := by
+  have := readable_exact h happ evs [] (by simp)
+  have hR := (h.inv happ evs [] (by simp)).1
+  -- after the final readAll nothing is left to read
+  obtain ⟨hRp, _⟩ := h.inv happ pre [.api .readAll] hlast
+  have hfp : Scenario.fed pre = Scenario.fed evs := by
+    rw [hlast, fed_append, fed_single]; simp [evBytesOf]
+  rw [hfp] at hRp
+  have hrun : Sock.run env app evs =
+      (Sock.stepK env app (Sock.run env app pre, (pre.foldl (Sock.stepK env app) ({}, 0)).2)
+        (.api .readAll)).1 := by
+    rw [hlast]; simp [Sock.run, List.foldl_append]
+  rw [hrun]
+  exact (hRp.final_readAll env app h.brk hN _).1
+
+/-- **notifications.** At every point between two events: `headersParsed` was emitted at most
+    once, and exactly once iff the head and its blank line have arrived; `readChannelFinished`
+    at most once, and exactly once iff moreover `N` body bytes have arrived. -/
+theorem notifications (h : Stream env head N rest evs) (happ : ReaderApp app)
+    (pre post : List Event) (hevs : evs = pre ++ post) :
+    Obs.countP Obs.isHp (Sock.run env app pre).log ≤ 1 ∧
+    Obs.countP Obs.isRcf (Sock.run env app pre).log ≤ 1 ∧
+    (Obs.countP Obs.isHp (Sock.run env app pre).log = 1 ↔ head.length + 4 ≤ (Scenario.fed pre).length) ∧
+    (Obs.countP Obs.isRcf (Sock.run env app pre).log = 1 ↔
+      head.length + 4 + N ≤ (Scenario.fed pre).length) := by
+  obtain ⟨hR, hpre⟩ := h.inv happ pre post hevs
+  obtain ⟨chp, crcf, _, _⟩ := hR.counts
+  by_cases hrs : (Sock.run env app pre).rs = .headers
+  · have hlt := arrived_lt_of_headers h hR hpre hrs
+    rw [chp, crcf, hrs]
+    simp; omega
+  · obtain ⟨rest', t, e1, _, _, e4⟩ := hR.rest_eq h.brk hpre hrs
+    have hlen : (Scenario.fed pre).length = head.length + 4 + rest'.length := by
+      rw [e1]; simp [CRLF2_length]; omega
+    rw [chp, crcf, if_neg hrs]
+    by_cases hfin : (Sock.run env app pre).rs = .finished
+    · have := e4.mp hfin
+      rw [if_pos hfin]; simp; omega
+    · have : ¬ N ≤ rest'.length := fun hc => hfin (e4.mpr hc)
+      rw [if_neg hfin]; simp; omega
+
+/-- **notifications, order in the history** (covers reads made inside reactions): a read that
+    returns at least one byte comes after `headersParsed` -/
+theorem hp_before_data (h : Stream env head N rest evs) (happ : ReaderApp app)
+    (l1 l2 : List Obs) (b : Bytes) (hlog : (Sock.run env app evs).log = l1 ++ Obs.rd b :: l2)
+    (hb : b ≠ []) : Obs.hp ∈ l1 := by
+  obtain ⟨hR, _⟩ := h.inv happ evs [] (by simp)
+  have hw := hR.counts.2.2.1
+  rw [hlog] at hw
+  exact walkL_rd_hp _ _ _ _ _ _ hw hb
+
+end plain
+
+/-! ### non-vacuity: a run with the blank line split between segments and a lazy reader -/
+
+/-- a concrete environment for examples: every target is a valid URL with an empty query -/
+def envEx : Env := { url := fun raw => some (raw, []), errPage := fun _ _ => [] }
+
+/-- `POST /a HTTP/1.1\r\nContent-Length: 3\r\n\r` | `\nab` | `cX` : the blank line is split
+    between two segments, the body between two segments, one trailing byte -/
+def seg1 : Bytes := [80, 79, 83, 84, 32, 47, 97, 32, 72, 84, 84, 80, 47, 49, 46, 49, 13, 10, 67, 111, 110, 116, 101, 110, 116, 45, 76, 101, 110, 103, 116, 104, 58, 32, 51, 13, 10, 13]
+def seg2 : Bytes := [10, 97, 98]
+def seg3 : Bytes := [99, 88]
+
+/-- lazy reader: one byte per `readyRead`, the rest from idle context one turn later -/
+def lazyScript : Script := { onRr := [.read 1] }
+def evsEx : List Event :=
+  [.new, .feed seg1, .feed seg2, .turn, .feed seg3, .turn, .api .avail, .api .readAll]
+
+example : readerEvents evsEx = true := by decide
+example : ReaderApp lazyScript.app := ReaderApp.of_script _ (by decide)
+example : (req envEx (Scenario.fed evsEx)).map (fun r => (r.headLen, r.n, r.rest)) = some (39, 3, [97, 98, 99, 88]) := by decide +kernel
+example : holds envEx ⟨lazyScript.app, evsEx⟩ (Scenario.run envEx ⟨lazyScript.app, evsEx⟩).log = true := by decide +kernel
+example : Obs.reads (Scenario.run envEx ⟨lazyScript.app, evsEx⟩).log = [97, 98, 99] := by decide +kernel
+example : holds envEx ⟨lazyScript.app, evsEx⟩ (Scenario.run envEx ⟨lazyScript.app, evsEx⟩).log = true :=
+  holds_run envEx lazyScript.app (ReaderApp.of_script _ (by decide)) evsEx (by decide)
+
+/-- `POST /a HTTP/1.1\r\nContent-Length: 3` -/
+def headEx : Bytes := [80, 79, 83, 84, 32, 47, 97, 32, 72, 84, 84, 80, 47, 49, 46, 49, 13, 10, 67, 111, 110, 116, 101, 110, 116, 45, 76, 101, 110, 103, 116, 104, 58, 32, 51]
+
+/-- the hypotheses of the plain-terms theorems are satisfiable (same scenario) -/
+example : Stream envEx headEx 3 [97, 98, 99, 88] evsEx where
+  shape := by decide
+  fed := by decide +kernel
+  first := by rw [← isInfixB_iff]; decide +kernel
+  accepted := by
+    have ht : (C01.expect envEx headEx).map (·.total) = some 3 := by decide +kernel
+    cases h : C01.expect envEx headEx with
+    | none => rw [h] at ht; exact absurd ht (by simp)
+    | some f => rw [h] at ht; exact ⟨f, rfl, by simpa using ht⟩
 
 end Qhttp.C02
